@@ -741,8 +741,13 @@ class XlsxRowWriter(AbstractRowWriter):
                     # ValueError: signaling NaN of decimal.Decimal.
                     is_finite_number = False
                 if not is_finite_number:
+                    try:
+                        item_text = repr(item)
+                    except ValueError:
+                        # An integer number too big to be converted to text.
+                        item_text = type(item).__name__
                     raise errors.DataFormatError(
-                        "cannot write cell to Excel file: value must be a string, a date or a finite number: %r" % (item,),
+                        "cannot write cell to Excel file: value must be a string, a date or a finite number: %s" % item_text,
                         self.location,
                     )
         if exceeds_excel_limits:
